@@ -124,6 +124,9 @@ type Schema struct {
 	// Combined selects the generator's combined import mode for programs that import a
 	// library file (separate mode otherwise).
 	Combined bool `json:"combined,omitempty"`
+	// DeclSeed != 0: message fields are declared in an order permuted by this seed in every
+	// printed form of the program (see Layout.FieldOrder).
+	DeclSeed uint64 `json:"decl_seed,omitempty"`
 	byName   map[string]*Def
 }
 
@@ -139,7 +142,7 @@ func (s *Schema) HasLib() bool {
 
 // PrintApp prints the importing file: an import line and the program's own definitions.
 func (s *Schema) PrintApp(libFile string) string {
-	own := &Schema{Name: s.Name}
+	own := &Schema{Name: s.Name, DeclSeed: s.DeclSeed}
 	for _, d := range s.Defs {
 		if !d.Imported {
 			own.Defs = append(own.Defs, d)
@@ -150,7 +153,7 @@ func (s *Schema) PrintApp(libFile string) string {
 
 // PrintLib prints the imported file with its go_package constant.
 func (s *Schema) PrintLib(goPackage string) string {
-	lib := &Schema{Name: s.Name + "lib"}
+	lib := &Schema{Name: s.Name + "lib", DeclSeed: s.DeclSeed}
 	for _, d := range s.Defs {
 		if d.Imported {
 			lib.Defs = append(lib.Defs, d)
@@ -218,6 +221,32 @@ type Layout struct {
 	BlankRuns int
 	Trailing  int  // 1: "// c" after closing curlies and const semicolons; 2: "/* c */" there
 	SameLine  bool // some definitions follow the previous one on the same line
+	// FieldOrder != 0: message fields (and union branches) are DECLARED in an order permuted
+	// by this seed instead of by ascending index; the meaning of the schema is the same.
+	FieldOrder uint64
+}
+
+// declOrder returns the order in which n members of the named definition are printed.
+func declOrder(l Layout, name string, n int) []int {
+	out := make([]int, n)
+	for i := range out {
+		out[i] = i
+	}
+	if l.FieldOrder == 0 || n < 2 {
+		return out
+	}
+	x := l.FieldOrder
+	for _, c := range []byte(name) {
+		x = (x ^ uint64(c)) * 0x100000001b3
+	}
+	for i := n - 1; i > 0; i-- {
+		x ^= x << 13
+		x ^= x >> 7
+		x ^= x << 17
+		j := int(x % uint64(i+1))
+		out[i], out[j] = out[j], out[i]
+	}
+	return out
 }
 
 // flagExpr writes v as a [flags] expression in one of several forms with the same value.
@@ -258,6 +287,9 @@ func (s *Schema) Print() string { return s.PrintLayout(Layout{Indent: "    ", Co
 
 func (s *Schema) PrintLayout(l Layout) string {
 	var b strings.Builder
+	if l.FieldOrder == 0 {
+		l.FieldOrder = s.DeclSeed
+	}
 	trail := func() {
 		switch l.Trailing {
 		case 1:
@@ -363,7 +395,8 @@ func printDefBody(b *strings.Builder, d *Def, l Layout, ind string) {
 		}
 	case KMessage:
 		fmt.Fprintf(b, "message %s {%s", d.Name, nl)
-		for _, f := range d.Fields {
+		for _, fi := range declOrder(l, d.Name, len(d.Fields)) {
+			f := d.Fields[fi]
 			if nl == "\n" {
 				writeComment(b, f.Comment, l, in2)
 			}
@@ -521,7 +554,7 @@ func (s *Schema) hasZeroSizeElem(t Type, seen map[string]bool) bool {
 
 // Clone deep-copies a schema.
 func (s *Schema) Clone() *Schema {
-	c := &Schema{Name: s.Name, Combined: s.Combined, Consts: append([]Const(nil), s.Consts...)}
+	c := &Schema{Name: s.Name, Combined: s.Combined, DeclSeed: s.DeclSeed, Consts: append([]Const(nil), s.Consts...)}
 	for _, d := range s.Defs {
 		c.Defs = append(c.Defs, cloneDef(d))
 	}
@@ -609,7 +642,7 @@ func (s *Schema) Reachable(names ...string) *Schema {
 		}
 		visit(n)
 	}
-	c := &Schema{Name: s.Name, Combined: s.Combined}
+	c := &Schema{Name: s.Name, Combined: s.Combined, DeclSeed: s.DeclSeed}
 	for _, d := range s.Defs {
 		if need[d.Name] {
 			c.Defs = append(c.Defs, cloneDef(d))
